@@ -282,13 +282,16 @@ struct Transport::Impl
     // receiveSync), then engine->stop() WITHOUT holding syncMutex (shutdownDrain's
     // onClose needs it) so already-parked receiveSync waiters wake via `closed`,
     // DRAIN THEIR TAIL, and return PeerClosed (drain-before-close, INV-5b). Then
-    // wait everyone out WITHOUT re-notifying the receive CVs (notifyReceive=false,
-    // H-1): re-notifying here would let a parked waiter wake on `shuttingDown` and
-    // skip the drain when stop() degenerated to a CAS no-op. connectSync waiters
-    // were already woken by the fence; the gate still counts them.
+    // wait everyone out, now waking the receive CVs as well: a receiveSync parked
+    // on a session the engine does not hold (an id that was never valid, or one
+    // whose buffer was already reclaimed) gets no onClose from stop(), and without
+    // this wake-up it - and this teardown with it - would sit until the call's
+    // own timeout. stop() has returned, so every onClose it owed has already
+    // delivered its tail; a woken waiter still drains buffered bytes first.
+    // connectSync waiters were already woken by the fence; the gate counts them.
     setTeardownFence();
     engine->stop();
-    teardownWaitOut(/*notifyReceive=*/false);
+    teardownWaitOut(/*notifyReceive=*/true);
   }
 
   void setupEngineCallbacks()
